@@ -412,6 +412,11 @@ func (hc *grpcHandlerConn) Spec() Spec {
 
 func (hc *grpcHandlerConn) Receive(msg any) error {
 	if err := hc.unmarshaler.Unmarshal(msg); err != nil {
+		if errors.Is(err, errSpecialEnvelope) {
+			// Clients may not send gRPC-Web trailers. The sentinel wraps io.EOF,
+			// so passing it on would look like a clean end of the request.
+			return errorf(CodeInvalidArgument, "protocol error: client sent a trailers envelope")
+		}
 		return err // already coded
 	}
 	return nil // must be a literal nil: nil *Error is a non-nil error
@@ -552,9 +557,11 @@ func (u *grpcUnmarshaler) Unmarshal(message any) *Error {
 	mimeReader := textproto.NewReader(bufferedReader)
 	mimeHeader, mimeErr := mimeReader.ReadMIMEHeader()
 	if mimeErr != nil {
+		// Not %w: for an unterminated last line mimeErr is io.EOF, and an error
+		// wrapping io.EOF reads as a clean end of the stream.
 		return errorf(
 			CodeInternal,
-			"gRPC-Web protocol error: trailers invalid: %w",
+			"gRPC-Web protocol error: trailers invalid: %v",
 			mimeErr,
 		)
 	}
